@@ -5,7 +5,7 @@
 //!
 //! Two forms: the self-describing one (`serde_json::to_value`, maps with field names) and the
 //! positional one (structs as sequences in serialization order, what non-self-describing formats
-//! use), obtained with the small `Positional` serializer below.
+//! use), obtained with the small `TreeSer` serializer below (it also answers `is_human_readable()` as configured).
 use serde::ser::{self, Serialize};
 use serde_json::{json, Value};
 
@@ -23,19 +23,36 @@ impl ser::Error for PosError {
     }
 }
 
-/// Serializes structs / tuples as arrays of their fields in serialization order.
-pub struct Positional;
+/// Serializes into a `Value` tree.  `maps`: structs as maps keyed by field name (self-describing)
+/// or as arrays of their fields in serialization order (what non-self-describing formats use).
+/// `human`: what `is_human_readable()` answers.  Byte strings become `{"$bytes": [..]}`.
+#[derive(Clone, Copy)]
+pub struct TreeSer {
+    pub maps: bool,
+    pub human: bool,
+}
 
 pub struct Collect {
+    cfg: TreeSer,
     items: Vec<Value>,
+    keys: Vec<String>,
     wrap: Option<&'static str>,
+    pending_key: Option<String>,
 }
 
 impl Collect {
+    fn new(cfg: TreeSer, wrap: Option<&'static str>) -> Collect {
+        Collect { cfg, items: vec![], keys: vec![], wrap, pending_key: None }
+    }
     fn done(self) -> Value {
+        let body = if self.keys.len() == self.items.len() && !self.keys.is_empty() {
+            Value::Object(self.keys.into_iter().zip(self.items).collect())
+        } else {
+            Value::Array(self.items)
+        };
         match self.wrap {
-            Some(name) => json!({ name: self.items }),
-            None => Value::Array(self.items),
+            Some(name) => json!({ name: body }),
+            None => body,
         }
     }
 }
@@ -46,8 +63,8 @@ macro_rules! collect_impl {
             type Ok = Value;
             type Error = PosError;
             fn $m<T: ?Sized + Serialize>(&mut self, $($key: &'static str,)? v: &T) -> Result<(), PosError> {
-                $(let _ = $key;)?
-                self.items.push(v.serialize(Positional)?);
+                $(if self.cfg.maps { self.keys.push($key.to_string()); })?
+                self.items.push(v.serialize(self.cfg)?);
                 Ok(())
             }
             fn end(self) -> Result<Value, PosError> {
@@ -66,11 +83,20 @@ collect_impl!(SerializeStructVariant, serialize_field, key);
 impl ser::SerializeMap for Collect {
     type Ok = Value;
     type Error = PosError;
-    fn serialize_key<T: ?Sized + Serialize>(&mut self, _: &T) -> Result<(), PosError> {
-        Err(PosError("maps are not positional".into()))
+    fn serialize_key<T: ?Sized + Serialize>(&mut self, k: &T) -> Result<(), PosError> {
+        match k.serialize(self.cfg)? {
+            Value::String(s) => {
+                self.pending_key = Some(s);
+                Ok(())
+            }
+            _ => Err(PosError("only string keys".into())),
+        }
     }
-    fn serialize_value<T: ?Sized + Serialize>(&mut self, _: &T) -> Result<(), PosError> {
-        Err(PosError("maps are not positional".into()))
+    fn serialize_value<T: ?Sized + Serialize>(&mut self, v: &T) -> Result<(), PosError> {
+        let k = self.pending_key.take().ok_or_else(|| PosError("value without key".into()))?;
+        self.keys.push(k);
+        self.items.push(v.serialize(self.cfg)?);
+        Ok(())
     }
     fn end(self) -> Result<Value, PosError> {
         Ok(self.done())
@@ -81,7 +107,7 @@ macro_rules! num {
     ($($f:ident $t:ty),*) => { $(fn $f(self, v: $t) -> Result<Value, PosError> { Ok(json!(v)) })* };
 }
 
-impl ser::Serializer for Positional {
+impl ser::Serializer for TreeSer {
     type Ok = Value;
     type Error = PosError;
     type SerializeSeq = Collect;
@@ -91,6 +117,9 @@ impl ser::Serializer for Positional {
     type SerializeMap = Collect;
     type SerializeStruct = Collect;
     type SerializeStructVariant = Collect;
+    fn is_human_readable(&self) -> bool {
+        self.human
+    }
     num!(serialize_bool bool, serialize_i8 i8, serialize_i16 i16, serialize_i32 i32, serialize_i64 i64,
          serialize_u8 u8, serialize_u16 u16, serialize_u32 u32, serialize_u64 u64, serialize_f32 f32, serialize_f64 f64);
     fn serialize_char(self, v: char) -> Result<Value, PosError> {
@@ -100,13 +129,13 @@ impl ser::Serializer for Positional {
         Ok(json!(v))
     }
     fn serialize_bytes(self, v: &[u8]) -> Result<Value, PosError> {
-        Ok(json!(v))
+        Ok(json!({ "$bytes": v }))
     }
     fn serialize_none(self) -> Result<Value, PosError> {
         Ok(Value::Null)
     }
     fn serialize_some<T: ?Sized + Serialize>(self, v: &T) -> Result<Value, PosError> {
-        v.serialize(Positional)
+        v.serialize(self)
     }
     fn serialize_unit(self) -> Result<Value, PosError> {
         Ok(Value::Null)
@@ -118,36 +147,40 @@ impl ser::Serializer for Positional {
         Ok(json!(variant))
     }
     fn serialize_newtype_struct<T: ?Sized + Serialize>(self, _: &'static str, v: &T) -> Result<Value, PosError> {
-        v.serialize(Positional)
+        v.serialize(self)
     }
     fn serialize_newtype_variant<T: ?Sized + Serialize>(self, _: &'static str, _: u32, variant: &'static str, v: &T) -> Result<Value, PosError> {
-        Ok(json!({ variant: v.serialize(Positional)? }))
+        Ok(json!({ variant: v.serialize(self)? }))
     }
     fn serialize_seq(self, _: Option<usize>) -> Result<Collect, PosError> {
-        Ok(Collect { items: vec![], wrap: None })
+        Ok(Collect::new(self, None))
     }
     fn serialize_tuple(self, _: usize) -> Result<Collect, PosError> {
-        Ok(Collect { items: vec![], wrap: None })
+        Ok(Collect::new(self, None))
     }
     fn serialize_tuple_struct(self, _: &'static str, _: usize) -> Result<Collect, PosError> {
-        Ok(Collect { items: vec![], wrap: None })
+        Ok(Collect::new(self, None))
     }
     fn serialize_tuple_variant(self, _: &'static str, _: u32, variant: &'static str, _: usize) -> Result<Collect, PosError> {
-        Ok(Collect { items: vec![], wrap: Some(variant) })
+        Ok(Collect::new(self, Some(variant)))
     }
     fn serialize_map(self, _: Option<usize>) -> Result<Collect, PosError> {
-        Err(PosError("maps are not positional".into()))
+        if self.maps {
+            Ok(Collect::new(self, None))
+        } else {
+            Err(PosError("maps are not positional".into()))
+        }
     }
     fn serialize_struct(self, _: &'static str, _: usize) -> Result<Collect, PosError> {
-        Ok(Collect { items: vec![], wrap: None })
+        Ok(Collect::new(self, None))
     }
     fn serialize_struct_variant(self, _: &'static str, _: u32, variant: &'static str, _: usize) -> Result<Collect, PosError> {
-        Ok(Collect { items: vec![], wrap: Some(variant) })
+        Ok(Collect::new(self, Some(variant)))
     }
 }
 
-pub fn positional<T: Serialize>(v: &T) -> Value {
-    v.serialize(Positional).expect("positional serialization")
+pub fn tree<T: Serialize>(v: &T, cfg: TreeSer) -> Value {
+    v.serialize(cfg).expect("tree serialization")
 }
 
 pub fn self_describing<T: Serialize>(v: &T) -> Value {
